@@ -1,9 +1,78 @@
-(* C11 - placeholder; theorems are added as proofs land *)
-From Coq Require Import ZArith List.
-From NutsV Require Import model.Protocol.
+(* C11 - Controller never deadlocks; traces are complete or an exact prefix. *)
+From Coq Require Import ZArith List Bool Arith.
+From NutsV Require Import model.Protocol proofs.Protocol_facts.
 Import ListNotations.
-Example C11_model_runs :
+
+(* every trace is a prefix of the full run's trace 0,1,...,total-1 (aborted runs included) *)
+Theorem C11_traces_are_prefixes :
+  forall (n total : nat) (s : st) (c : chain),
+    reach n total s -> In c (s_chains s) -> c_rec c = firstn (c_draw c) (seq 0 total).
+Proof. exact I8_prefix. Qed.
+Print Assumptions C11_traces_are_prefixes.
+
+(* a run that is not aborted: when wait_timeout returns Trace every chain has recorded exactly
+   num_tune + num_draws draws, in order, and reported Ok *)
+Theorem C11_trace_complete :
+  forall (n total : nat) (s s' : st) (c : chain),
+    reach n total s -> step s (EvUser (ERetWait 1%Z)) = Some s' -> In c (s_chains s) ->
+    c_pc c = PDone true /\ c_draw c = total /\ c_rec c = seq 0 total.
+Proof. exact I4_wait_trace_complete. Qed.
+Print Assumptions C11_trace_complete.
+
+Theorem C11_no_abort_complete :
+  forall (n total : nat) (s : st) (c : chain),
+    reach n total s -> s_cmd_open s = true -> s_ctl_ok s = true -> In c (s_chains s) ->
+    c_pc c = PDone true -> c_draw c = total /\ c_rec c = seq 0 total.
+Proof. exact I4_complete. Qed.
+Print Assumptions C11_no_abort_complete.
+
+(* a chain that ended normally either recorded everything or was cut off by finalisation *)
+Theorem C11_done_all_or_cut :
+  forall (n total : nat) (s : st) (c : chain),
+    reach n total s -> In c (s_chains s) -> c_pc c = PDone true ->
+    c_draw c = total \/ (c_tx c = false /\ fin (s_ctl s)).
+Proof. exact I4_done_all_or_cut. Qed.
+Print Assumptions C11_done_all_or_cut.
+
+(* a run with num_tune + num_draws = 0 records nothing *)
+Theorem C11_zero_draws :
+  forall (n : nat) (s : st) (c : chain),
+    reach n 0 s -> In c (s_chains s) -> c_rec c = [] /\ c_draw c = 0.
+Proof. exact I1_no_draws. Qed.
+Print Assumptions C11_zero_draws.
+
+(* no deadlock, chain side: a chain that is neither finished nor waiting for a Resume in the
+   documented blocking receive always has an enabled event; a blocked chain with a message or a
+   dropped sender can continue *)
+Theorem C11_chains_never_stuck :
+  (forall (s : st) (i : nat) (c : chain),
+     nth_error (s_chains s) i = Some c -> is_done c = false -> ~ waiting c ->
+     exists s', chain_step s i (next_ev (s_total s) c) = Some s') /\
+  (forall (s : st) (i : nat) (c : chain),
+     nth_error (s_chains s) i = Some c -> c_pc c = PBlocked -> c_mail c <> [] \/ c_tx c = false ->
+     exists s', chain_step s i (ERecv (fst (recv_now c))) = Some s').
+Proof. split; [exact I9_chain_enabled | exact I9_blocked_recv_enabled]. Qed.
+Print Assumptions C11_chains_never_stuck.
+
+(* no deadlock, controller side: while forwarding a command the next send is enabled, and once the
+   controller responds the user's call returns: every pause/resume/progress/flush/inspect returns *)
+Theorem C11_calls_return :
+  (forall (n total : nat) (s : st) (c : cmd) (nx : nat),
+     reach n total s -> s_ctl s = KHandling c nx ->
+     exists s', step s (EvCtl (ESend (msg_for c) nx true)) = Some s') /\
+  (forall (n total : nat) (s : st) (c : cmd),
+     reach n total s -> s_ctl s = KResponding c ->
+     s_user s = UCalling c /\ exists s', step s (EvUser (ERet c 1%Z)) = Some s').
+Proof. split; [exact I9_ctl_send_enabled | exact I9_ret_enabled]. Qed.
+Print Assumptions C11_calls_return.
+
+Theorem C11_quiescent_is_final :
+  forall (s : st) (e : ev), quiescent s -> step s e = None.
+Proof. exact I9_quiescent_final. Qed.
+Print Assumptions C11_quiescent_is_final.
+
+Example C11_nonvacuous :
   replay_log 1 1 [(2, 0, 0, 0); (2, 1, 0, 0); (2, 4, 0, 0); (2, 5, 0, 0); (2, 7, 0, 0); (2, 8, 0, 1)]%Z
   = [[1; 1; 8; 1]]%Z.
 Proof. vm_compute. reflexivity. Qed.
-Print Assumptions C11_model_runs.
+Print Assumptions C11_nonvacuous.
